@@ -105,7 +105,7 @@ func buildRace() {
 }
 
 // raceProps lists the properties whose check has a race-instrument phase.
-var raceProps = map[string]bool{"C15": true}
+var raceProps = map[string]int{"C15": 40, "C02": 20, "C05": 20, "C11": 20, "C14": 20, "C16": 20, "C19": 25, "C20": 25} // property -> percent of the budget
 
 func runWorker(extra []string, stdout *bytes.Buffer) (int, string) {
 	return runWorkerBin(false, extra, stdout)
@@ -244,13 +244,13 @@ func main() {
 	}
 	budget := time.Duration(tc.BudgetS) * time.Second
 	raceRuns := 0
-	if raceProps[prop] && os.Getenv("VERIF_NO_RACE") == "" {
-		// 60 % of the budget under the plain binary, 40 % under the race instrument (other run indices)
+	if pct := raceProps[prop]; pct > 0 && os.Getenv("VERIF_NO_RACE") == "" {
+		// most of the budget under the plain binary, the rest under the race instrument (other run indices)
 		t0 := time.Now()
-		fanOut(false, "w", 0, t0.Add(budget*6/10))
+		fanOut(false, "w", 0, t0.Add(budget*time.Duration(100-pct)/100))
 		if infra == "" {
 			buildRace()
-			fanOut(true, "wr", 50000000, time.Now().Add(budget*4/10))
+			fanOut(true, "wr", 50000000, time.Now().Add(budget*time.Duration(pct)/100))
 			for wid := 0; wid < tc.Workers; wid++ {
 				if n := lastIdx(filepath.Join(dir, fmt.Sprintf("wr%d.jsonl", wid))); n >= 0 {
 					raceRuns += (n-50000000)/tc.Workers + 1
